@@ -94,7 +94,7 @@ var c13StateNames = map[ArbitratorState]string{
 	StateError:                 "Error",
 }
 
-var c13Roles = map[uint64]string{99: "o", 100: "od", 101: "id", 102: "i"}
+var c13Roles = map[uint64]string{99: "o", 100: "od", 101: "id", 102: "i", 103: "n"}
 
 // ---- scenarios ---------------------------------------------------------------
 
@@ -102,7 +102,11 @@ type c13Scenario struct {
 	name      string
 	kind      string // local | remote | breach | coop
 	userClose bool
-	htlcs     []channeldb.HTLC
+	htlcs     []channeldb.HTLC // the HTLCs of the commitment that confirms (and of ours)
+	// the HTLCs of the other commitment in the CommitSet, if its layout differs: an update was in
+	// flight at close time, the newer HTLC n takes output 0 there and shifts o to output 1
+	otherKey   HtlcSetKey
+	otherHtlcs []channeldb.HTLC
 	// environment
 	claim      bool  // the remote party claims "o" with the preimage
 	spend1At   int32 // height from which the first-level spend of o / i confirms
@@ -142,6 +146,14 @@ func c13NewScenario(name string) *c13Scenario {
 		s.spend1At, s.spend2At = 12, 16
 		s.maxHeight = 17
 	case "remote":
+		s.kind = "remote"
+		s.spend1At = 12
+		s.maxHeight = 13
+	case "shift":
+		s.kind, s.userClose = "local", true
+		s.spend1At, s.spend2At = 12, 16
+		s.maxHeight = 17
+	case "rshift":
 		s.kind = "remote"
 		s.spend1At = 12
 		s.maxHeight = 13
@@ -201,6 +213,18 @@ func c13NewScenario(name string) *c13Scenario {
 		s.htlcs = []channeldb.HTLC{mk(false, 100, 100, -1, exp), mk(true, 20000, 102, 1, exp)}
 	case "coop":
 		s.htlcs = nil
+	case "shift", "rshift":
+		s.htlcs = []channeldb.HTLC{
+			mk(false, 10000, 99, 0, exp), mk(false, 100, 100, -1, exp), mk(true, 105, 101, -1, exp),
+		}
+		s.otherHtlcs = []channeldb.HTLC{
+			mk(false, 20000, 103, 0, 1000), mk(false, 10000, 99, 1, exp),
+			mk(false, 100, 100, -1, exp), mk(true, 105, 101, -1, exp),
+		}
+		s.otherKey = RemoteHtlcSet
+		if name == "rshift" {
+			s.otherKey = RemotePendingHtlcSet
+		}
 	default:
 		s.htlcs = []channeldb.HTLC{
 			mk(false, 10000, 99, 0, exp), mk(false, 100, 100, -1, exp), mk(true, 105, 101, -1, exp),
@@ -818,6 +842,9 @@ func c13Boot(t *testing.T, w *c13World, db kvdb.Backend) (*c13Inc, error) {
 	} else {
 		htlcSets[LocalHtlcSet] = newHtlcSet(s.htlcs)
 		htlcSets[RemoteHtlcSet] = newHtlcSet(s.htlcs)
+		if s.otherHtlcs != nil {
+			htlcSets[s.otherKey] = newHtlcSet(s.otherHtlcs)
+		}
 	}
 
 	blog, err := newBoltArbitratorLog(db, cfg, chainhash.Hash{}, cfg.ChanPoint)
@@ -1085,6 +1112,9 @@ func c13SendClose(w *c13World, arb *ChannelArbitrator) {
 		HtlcSets: map[HtlcSetKey][]channeldb.HTLC{
 			LocalHtlcSet: s.htlcs, RemoteHtlcSet: s.htlcs,
 		},
+	}
+	if s.otherHtlcs != nil {
+		cs.HtlcSets[s.otherKey] = s.otherHtlcs
 	}
 	res := s.htlcResolutions()
 	h := s.closeTx.TxHash()
